@@ -257,6 +257,14 @@ def judge(case, acc):
             elif ok_model and graph.setlevel(s1) != graph.setlevel(model):
                 acc.violation('C18/bulk-assignment-effect/relation', f'{step["list"]}.{rel} = {[t.id for t in val]} on {[t.id for t in content]}: {diff(model, s1)}', one)
             continue
+        if step.get('in_form'):
+            # any container works for membership: a frozenset, a tuple, the keys of a dict
+            conv = {'frozenset': frozenset, 'tuple': tuple, 'dictkeys': lambda v_: {x_: 1 for x_ in v_}.keys()}[step['in_form']]
+            try:
+                kw = {k_: (conv(v_) if k_.endswith(('_in_', '_not_in_')) and isinstance(v_, list) else v_) for k_, v_ in kw.items()}
+                acc.count('membership_filters_with_other_containers')
+            except TypeError:
+                pass       # unhashable members: keep the list
         try:
             if op == 'query':
                 acc.count('queries')
@@ -354,6 +362,8 @@ def gen_case(rnd):
             # the one filter everybody writes: id=...; on a dependency list two different tasks may carry that id
             step.pop('callable_ids', None)
             step['kw'] = {'id': world['tasks'][-1]['id']}
+        if any(k_.endswith(('_in_', '_not_in_')) for k_ in step.get('kw') or {}) and rnd.random() < 0.4:
+            step['in_form'] = rnd.choice(['frozenset', 'tuple', 'dictkeys'])
         if step['list'] in ('predecessors', 'successors') and rnd.random() < 0.2:
             step['op'] = 'bulk_rel'
             step['attr'] = rnd.choice(['predecessors', 'successors'])
